@@ -192,8 +192,16 @@ func c23Entry(r *core.Report, p *core.Prog, fn, auth *ssa.Function) {
 		return ok && ex.Tuple == ssa.Value(ps) && ex.Index == idx
 	}
 	isPCall := func(v ssa.Value, method string) bool {
-		c, ok := v.(*ssa.Call)
-		return ok && c.Call.IsInvoke() && c.Call.Method.Name() == method && fromPS(c.Call.Value, 0)
+		inner, bind := core.Unbind(v)
+		c, ok := inner.(*ssa.Call)
+		if !ok || !c.Call.IsInvoke() || c.Call.Method.Name() != method {
+			return false
+		}
+		recv := c.Call.Value
+		if bind != nil {
+			recv = core.BindValue(recv, bind)
+		}
+		return fromPS(recv, 0)
 	}
 	// req: the argument of providerSpecific
 	var reqAlloc *ssa.Alloc
@@ -201,59 +209,80 @@ func c23Entry(r *core.Report, p *core.Prog, fn, auth *ssa.Function) {
 		reqAlloc, _ = ld.X.(*ssa.Alloc)
 	}
 	isReqID := func(v ssa.Value) bool {
+		if reqAlloc == nil {
+			return false
+		}
+		if _, bind := core.Unbind(v); bind != nil {
+			// the request handed to a helper by value: its ID field
+			root, path := core.BaseObject(v)
+			if ld, ok := root.(*ssa.UnOp); ok && ld.Op == token.MUL {
+				root = ld.X
+			}
+			return path == ".ID" && root == ssa.Value(reqAlloc)
+		}
 		ld, ok := v.(*ssa.UnOp)
-		if !ok || reqAlloc == nil {
+		if !ok {
 			return false
 		}
 		fa, ok := ld.X.(*ssa.FieldAddr)
 		return ok && fa.X == ssa.Value(reqAlloc) && core.FieldOf(fa) != nil && core.FieldOf(fa).Name() == "ID"
 	}
-	// ---- classify calls
+	// ---- classify calls (those fn makes itself and those made for it by the package's
+	// helpers it calls: a lifted call is judged at its site in fn, with its operands bound
+	// to fn's values)
 	var effects []c23Effect
-	var saves, kills, marks []*ssa.Call
+	var saves, kills, marks []Lifted
 	var authCalls []*ssa.Call
-	for _, cs := range core.CallsIn(fn, false, nil) {
-		cc := cs.Common()
-		c, isCall := cs.Instr.(*ssa.Call)
+	isLeaf := func(cc *ssa.CallCommon) bool {
+		h := core.StaticCallee(cc)
+		return h == nil || h.Blocks == nil || h.Pkg != fn.Pkg
+	}
+	for _, l := range LiftCalls(fn, isLeaf, 1) {
+		cc := l.Call.Common()
+		var val ssa.Value
+		if cc.IsInvoke() || core.ParamOf(cc.Value) != nil {
+			val = l.bound(cc.Value)
+		}
 		switch {
 		case core.StaticCallee(cc) == auth:
-			if isCall {
-				authCalls = append(authCalls, c)
+			if l.Direct() {
+				authCalls = append(authCalls, l.Call)
 			}
-		case !cc.IsInvoke() && core.ParamOf(cc.Value) != nil && core.ParamOf(cc.Value) != psPrm:
-			effects = append(effects, c23Effect{cs.Instr, "callback " + core.ParamOf(cc.Value).Name()})
-		case cc.IsInvoke() && fromPS(cc.Value, 0):
+		case !cc.IsInvoke() && val != nil && core.ParamOf(val) != nil && core.ParamOf(val) != psPrm:
+			effects = append(effects, c23Effect{l.Site.(ssa.CallInstruction), "callback " + core.ParamOf(val).Name()})
+		case cc.IsInvoke() && fromPS(val, 0):
 			if cc.Signature().Results().Len() == 0 {
-				effects = append(effects, c23Effect{cs.Instr, "provider." + cc.Method.Name()})
-				if isCall {
-					marks = append(marks, c)
-				}
+				effects = append(effects, c23Effect{l.Site.(ssa.CallInstruction), "provider." + cc.Method.Name()})
+				marks = append(marks, l)
 			}
-		case cc.IsInvoke() && fromPS(cc.Value, 1):
+		case cc.IsInvoke() && fromPS(val, 1):
 			if cc.Signature().Params().Len() > 0 {
-				effects = append(effects, c23Effect{cs.Instr, "pool." + cc.Method.Name()})
+				effects = append(effects, c23Effect{l.Site.(ssa.CallInstruction), "pool." + cc.Method.Name()})
 			}
-			if isCall && cc.Method.Name() == "Save" {
-				saves = append(saves, c)
+			if cc.Method.Name() == "Save" {
+				saves = append(saves, l)
 			}
-			if isCall && cc.Method.Name() == "Kill" {
-				kills = append(kills, c)
+			if cc.Method.Name() == "Kill" {
+				kills = append(kills, l)
 			}
-		case cc.IsInvoke() && core.ParamOf(cc.Value) == balPrm:
+		case cc.IsInvoke() && core.ParamOf(val) == balPrm:
 			if !strings.HasPrefix(cc.Method.Name(), "Get") {
-				effects = append(effects, c23Effect{cs.Instr, "balances." + cc.Method.Name()})
+				effects = append(effects, c23Effect{l.Site.(ssa.CallInstruction), "balances." + cc.Method.Name()})
 			}
 		case cc.IsInvoke() && (cc.Method.Name() == "Save" || cc.Method.Name() == "Kill"):
 			// a pool that is not the one providerSpecific returned
-			effects = append(effects, c23Effect{cs.Instr, "other-pool." + cc.Method.Name()})
-			r.Fail("C23.save-key", fmt.Sprintf("%s:%s-on-foreign-pool", name, cc.Method.Name()), p.Pos(cs.Pos()), "the receiver is not the stake pool returned by providerSpecific(req)")
+			effects = append(effects, c23Effect{l.Site.(ssa.CallInstruction), "other-pool." + cc.Method.Name()})
+			r.Fail("C23.save-key", fmt.Sprintf("%s:%s-on-foreign-pool", name, cc.Method.Name()), p.Pos(l.Pos()), "the receiver is not the stake pool returned by providerSpecific(req)")
 		}
 	}
 	r.Floor("C23.authorized", name+" effects", len(effects), 4)
 	// ---- save-key
 	r.Check(len(saves) == 1, "C23.save-key", name+":one-save", p.Pos(fn.Pos()), fmt.Sprintf("%d Save calls on the provider's pool", len(saves)))
 	for _, s := range saves {
-		a := s.Call.Args
+		a := []ssa.Value{}
+		for i := 0; i < s.NArgs(); i++ {
+			a = append(a, s.Arg(i))
+		}
 		okT := len(a) == 3 && isPCall(a[0], "Type")
 		okID := len(a) == 3 && (isReqID(a[1]) || isPCall(a[1], "Id"))
 		r.Check(okT, "C23.save-key", name+":save-type", p.Pos(s.Pos()), "type argument is p.Type(); got "+describe(a[0]))
@@ -314,9 +343,10 @@ func c23Entry(r *core.Report, p *core.Prog, fn, auth *ssa.Function) {
 		wantMark = "ShutDown"
 	}
 	if okM {
-		okM = marks[0].Call.Method.Name() == wantMark
+		okM = marks[0].Call.Call.Method.Name() == wantMark
 		if okM {
-			okM, _ = MustPass(p, fn, marks[0])
+			okM, _ = MustPass(p, fn, marks[0].Site)
+			okM = okM && marks[0].MustInHelpers(p)
 		}
 	}
 	r.Check(okM, "C23.kill-once", name+":marks-provider", p.Pos(fn.Pos()), "p."+wantMark+"() on every success path")
@@ -324,18 +354,27 @@ func c23Entry(r *core.Report, p *core.Prog, fn, auth *ssa.Function) {
 	d := fmt.Sprintf("%d sp.Kill calls", len(kills))
 	if okK {
 		k := kills[0]
-		a := k.Call.Args
+		a := []ssa.Value{}
+		for i := 0; i < k.NArgs(); i++ {
+			a = append(a, k.Arg(i))
+		}
 		slashOK := len(a) == 4 && c23RootsInParam(a[0], slashPrm)
-		okK = slashOK && isPCall(a[1], "Id") && isPCall(a[2], "Type") && core.ParamOf(a[3]) == balPrm && core.ErrLeadsToFailure(k) && !inCycle(k.Block())
+		okK = slashOK && isPCall(a[1], "Id") && isPCall(a[2], "Type") && core.ParamOf(a[3]) == balPrm && k.ErrFails() && !inCycle(k.Block()) && !inCycle(k.Call.Block())
 		if okK {
-			okK, d = MustPass(p, fn, k)
+			okK, d = MustPass(p, fn, k.Site)
+			okK = okK && k.MustInHelpers(p)
 		} else {
 			d = "arguments must be (killSlash, p.Id(), p.Type(), balances), error checked, outside loops"
 		}
 		if okK && len(saves) == 1 {
 			s := saves[0]
-			okS, ds := MustPass(p, fn, s)
-			r.Check(okS && Before(k, s) && core.ErrLeadsToFailure(s), "C23.kill-once", name+":saved-after-kill", p.Pos(s.Pos()), "the killed pool is written back on every success path, after the slash, error aborting; "+ds)
+			okS, ds := MustPass(p, fn, s.Site)
+			okS = okS && s.MustInHelpers(p)
+			before := Before(k.Site, s.Site)
+			if k.Site == s.Site {
+				before = Before(k.Call, s.Call)
+			}
+			r.Check(okS && before && s.ErrFails(), "C23.kill-once", name+":saved-after-kill", p.Pos(s.Pos()), "the killed pool is written back on every success path, after the slash, error aborting; "+ds)
 		}
 	}
 	r.Check(okK, "C23.kill-once", name+":pool-killed-once", p.Pos(fn.Pos()), d)
